@@ -159,7 +159,7 @@ def _native(n, b, p, mdi, values, tscale):
 
 
 def _witness(eng, acc, n, b, p, mdi, cpts, sv, cap=50):
-    if acc.c.get("witness_tried", 0) >= cap:
+    if acc.total("witness_tried") >= cap:
         return
     acc.inc("witness_tried")
     model, _ = robust_model(eng)
